@@ -249,7 +249,7 @@ func (og *OverlapGenerator) truncateOverlap(overlap string) string {
 	sentences := splitIntoSentencesWithPositions(overlap)
 	if len(sentences) == 0 {
 		// No sentences, truncate at word boundary
-		return og.generateCharacterOverlap(overlap[:og.config.MaxOverlap])
+		return og.generateCharacterOverlap(cutAtRuneBoundary(overlap, og.config.MaxOverlap))
 	}
 
 	// Find how many sentences fit within MaxOverlap
@@ -273,10 +273,25 @@ func (og *OverlapGenerator) truncateOverlap(overlap string) string {
 
 	if result.Len() == 0 {
 		// First sentence exceeds max, truncate it
-		return og.generateCharacterOverlap(overlap[:og.config.MaxOverlap])
+		return og.generateCharacterOverlap(cutAtRuneBoundary(overlap, og.config.MaxOverlap))
 	}
 
 	return result.String()
+}
+
+// cutAtRuneBoundary returns the longest prefix of s that is at most n bytes long
+// and does not end inside a multi-byte character.
+func cutAtRuneBoundary(s string, n int) string {
+	if n >= len(s) {
+		return s
+	}
+	if n < 0 {
+		n = 0
+	}
+	for n > 0 && !utf8.RuneStart(s[n]) {
+		n--
+	}
+	return s[:n]
 }
 
 // sentenceWithPosition holds a sentence and its position in the original text
